@@ -106,7 +106,11 @@ def build_hds(rng, *, version: int, m_sectors: int, nclusters: int, tail_cut_sec
         hdr += struct.pack("<II", size_sectors & 0xFFFFFFFF, rng.choice([0, 0, 1, 0xDEADBEEF, rng.getrandbits(32)]))
     else:
         hdr += struct.pack("<Q", size_sectors)
-    hdr += struct.pack("<IIIQ", 0x746F6E59 if in_use else 0, first_block // SECTOR, 0, 0)
+    # the first-block-offset field is informational (the BAT entries are absolute); old version-1 images leave it empty
+    fbo_field = first_block // SECTOR
+    if version == 1 and rng.random() < 0.25:
+        fbo_field = rng.choice([0, 0, 1])
+    hdr += struct.pack("<IIIQ", 0x746F6E59 if in_use else 0, fbo_field, 0, 0)
     assert len(hdr) == 64
     sf = SparseFile()
     sf.put(0, hdr + struct.pack(f"<{nclusters}I", *bat))
@@ -114,7 +118,7 @@ def build_hds(rng, *, version: int, m_sectors: int, nclusters: int, tail_cut_sec
         sf.put(c, PatternGen(layer, i * m_sectors, m_sectors))
     sf.size = max(sf.end, first_block)
     meta = {
-        "version": version, "cluster_size": cs, "size": size, "bat": bat, "first_block": first_block,
+        "version": version, "cluster_size": cs, "size": size, "bat": bat, "first_block": first_block, "first_block_field": fbo_field,
         "states": "".join(states), "metadata_bytes": hdr_end, "in_use": in_use,
     }
     return sf, layer, meta
